@@ -1,8 +1,293 @@
 /-
-C19 — property theorems (placeholder while the proofs are being developed).
+C19 — "Fourier transforms invert and filters are the convolutions they claim to be".
+Property theorems over the model of `Model.lean`.  All statements hold for every array length, kernel, index range and
+element ring (no bounds).  What is NOT a theorem here: that a product of DFTs is a circular convolution
+(`C19_convolution_theorem_statement`, a `Prop`), the real-data packing trick, the n-dimensional recursion and every
+`float` rounding — those links are covered by the correspondence run against the implementation only.
 -/
-import StirVerif.C19.Model
+import StirVerif.C19.Proofs
 
 namespace StirVerif.C19
+open Finset
+
+/-! ### filters are the convolutions they claim to be -/
+
+/-- "filters are the convolutions they claim to be" — `ArrayFilter1DUsingConvolution::do_it`, zero boundary condition,
+    arbitrary kernel / input / output index ranges: `out_i = Σ_j k_j·in_{i-j}` with zero extension (an empty kernel is the
+    identity filter; the `is_trivial()` shortcut for the kernel `[1]` at index 0 agrees with the sum). -/
+theorem C19_conv_index_ranges {K : Type} [CommSemiring K] [DecidableEq K]
+    (jmin jmax : Int) (k : Int → K) (inMin inMax : Int) (x : Int → K) (i : Int) :
+    arrayFilter1DAt .zero jmin jmax k inMin inMax x i =
+      some (if jmax + 1 - jmin = 0 then ext inMin inMax x i else ∑ j ∈ Icc jmin jmax, k j * ext inMin inMax x (i - j)) :=
+  arrayFilter1DAt_zero jmin jmax k inMin inMax x i
+
+/-- "all boundary condition settings": constant boundary condition = convolution with the nearest-element extension
+    (the three loops sharing the running index `j`); the periodic setting is rejected with `error()`. -/
+theorem C19_conv_index_ranges_constant {K : Type} [CommSemiring K] [DecidableEq K]
+    (jmin jmax : Int) (k : Int → K) (inMin inMax : Int) (x : Int → K) (i : Int) (hin : inMin ≤ inMax) :
+    arrayFilter1DAt .constant jmin jmax k inMin inMax x i =
+        some (if jmax + 1 - jmin = 0 then x (clamp inMin inMax i) else ∑ j ∈ Icc jmin jmax, k j * x (clamp inMin inMax (i - j)))
+      ∧ arrayFilter1DAt .periodic jmin jmax k inMin inMax x i = none :=
+  ⟨arrayFilter1DAt_constant jmin jmax k inMin inMax x i hin, by unfold arrayFilter1DAt; split <;> rfl⟩
+
+/-- the loops never read outside the index ranges of kernel and input -/
+theorem C19_conv_reads_in_bounds {K : Type} [CommSemiring K]
+    (jmin jmax : Int) (k k' : Int → K) (inMin inMax : Int) (x x' : Int → K) (i : Int)
+    (hk : ∀ j, jmin ≤ j → j ≤ jmax → k j = k' j) (hx : ∀ m, inMin ≤ m → m ≤ inMax → x m = x' m) :
+    conv1dZeroAt jmin jmax k inMin inMax x i = conv1dZeroAt jmin jmax k' inMin inMax x' i :=
+  conv1dZeroAt_congr jmin jmax k k' inMin inMax x x' i hk hx
+
+/-- `ArrayFilter1DUsingConvolutionSymmetricKernel::do_it`: the convolution with the symmetrised kernel `k_{|j|}` -/
+theorem C19_conv_symmetric {K : Type} [CommSemiring K]
+    (jmax : Int) (k : Int → K) (inMin inMax : Int) (x : Int → K) (i : Int) (hj : 0 ≤ jmax) (hi : inMin ≤ i ∧ i ≤ inMax) :
+    convSymAt jmax k inMin inMax x i = ∑ j ∈ Icc (-jmax) jmax, k |j| * ext inMin inMax x (i - j) :=
+  convSymAt_eq jmax k inMin inMax x i hj hi
+
+/-- `ArrayFilter2DUsingConvolution::do_it` is the 2-D convolution — PARTIAL: only when `is_trivial()` answers false
+    (see `C19_conv2d_is_trivial_fails`: `is_trivial()` looks at the outer extent and at the coefficient at the origin only). -/
+theorem C19_conv2d_partial {K : Type} [CommSemiring K] [DecidableEq K]
+    (kr0 kr1 : R) (k : Int → Int → K) (ir0 ir1 : R) (x : Int → Int → K) (y xx : Int) (h : isTrivial2D kr0 k = false) :
+    arrayFilter2DAt kr0 kr1 k ir0 ir1 x y xx =
+      ∑ j ∈ Icc kr0.lo kr0.hi, ∑ i ∈ Icc kr1.lo kr1.hi, k j i * ext2 ir0 ir1 x (y - j) (xx - i) :=
+  arrayFilter2DAt_of_not_trivial kr0 kr1 k ir0 ir1 x y xx h
+
+/-- the same for `ArrayFilter3DUsingConvolution::do_it` — PARTIAL for the same reason -/
+theorem C19_conv3d_partial {K : Type} [CommSemiring K] [DecidableEq K]
+    (kr0 kr1 kr2 : R) (k : Int → Int → Int → K) (ir0 ir1 ir2 : R) (x : Int → Int → Int → K) (z y xx : Int)
+    (h : isTrivial3D kr0 k = false) :
+    arrayFilter3DAt kr0 kr1 kr2 k ir0 ir1 ir2 x z y xx =
+      ∑ kk ∈ Icc kr0.lo kr0.hi, ∑ j ∈ Icc kr1.lo kr1.hi, ∑ i ∈ Icc kr2.lo kr2.hi,
+        k kk j i * ext3 ir0 ir1 ir2 x (z - kk) (y - j) (xx - i) :=
+  arrayFilter3DAt_of_not_trivial kr0 kr1 kr2 k ir0 ir1 ir2 x z y xx h
+
+/-- witness kernel `[[2, 1, 3]]` (outer range `0..0`, inner range `-1..1`) and input row `[1, 2, 3, 4]` -/
+def witnessK2 : Int → Int → Int := fun _ i => if i == -1 then 2 else if i == 0 then 1 else 3
+def witnessX2 : Int → Int → Int := fun _ b => b + 1
+
+/-- NEGATIVE WITNESS (replayed on the implementation by the harness: known-finding key
+    `conv2d3d:is_trivial-looks-only-at-outer-extent-and-coefficient-at-origin`): the 2-D filter returns the input (1)
+    where the convolution it claims to be is 2·2 + 1·1 + 3·0 = 5. -/
+theorem C19_conv2d_is_trivial_fails :
+    arrayFilter2DAt ⟨0, 0⟩ ⟨-1, 1⟩ witnessK2 ⟨0, 0⟩ ⟨0, 3⟩ witnessX2 0 0 = 1 ∧
+      conv2dAt ⟨0, 0⟩ ⟨-1, 1⟩ witnessK2 ⟨0, 0⟩ ⟨0, 3⟩ witnessX2 0 0 = 5 := by decide
+
+/-- the 3-D class has the same defect -/
+theorem C19_conv3d_is_trivial_fails :
+    arrayFilter3DAt ⟨0, 0⟩ ⟨0, 0⟩ ⟨-1, 1⟩ (fun _ => witnessK2) ⟨0, 0⟩ ⟨0, 0⟩ ⟨0, 3⟩ (fun _ => witnessX2) 0 0 0 = 1 ∧
+      conv3dAt ⟨0, 0⟩ ⟨0, 0⟩ ⟨-1, 1⟩ (fun _ => witnessK2) ⟨0, 0⟩ ⟨0, 0⟩ ⟨0, 3⟩ (fun _ => witnessX2) 0 0 0 = 5 := by decide
+
+/-! ### padded-DFT route = direct route -/
+
+/-- "Filtering through the padded-DFT route equals direct convolution with the same kernel whenever … no wrap-around can
+    occur": for the model of `ArrayFilterUsingRealDFTWithPadding<1>` (wrap-around placement of the kernel, padded length
+    = kernel length, data copied with `index mod padded length`, circular convolution, copied back): if the data fit into
+    the padded length and every kernel coefficient that wrap-around could reach from output index `i` is zero, the
+    result at `i` is `Σ_j k_j·in_{i-j}`. -/
+theorem C19_circular_eq_linear {K : Type} [CommSemiring K]
+    (kmin kmax : Int) (k : Int → K) (inMin inMax : Int) (x : Int → K) (outMin outMax i : Int)
+    (hf : realLenOkForward (kmax + 1 - kmin).toNat = true) (hinv : realLenOkInverse (kmax + 1 - kmin).toNat = true)
+    (hpos : kmin ≤ kmax) (hfit : inMax + 1 - inMin ≤ kmax + 1 - kmin) (hi : outMin ≤ i ∧ i ≤ outMax)
+    (hnowrap : ∀ m, inMin ≤ m → m ≤ inMax → ¬ (kmin ≤ i - m ∧ i - m ≤ kmax) →
+      k (kmin + (i - m - kmin) % (kmax + 1 - kmin)) = 0) :
+    ∃ f, dftFilter1 kmin kmax k inMin inMax x outMin outMax = some f ∧
+      f i = ∑ j ∈ Icc kmin kmax, k j * ext inMin inMax x (i - j) :=
+  dftFilter1_eq_direct kmin kmax k inMin inMax x outMin outMax i hf hinv hpos hfit hi hnowrap
+
+/-- the classical sufficient condition `L > (extent of the differences i-m) + (extent of the kernel support)`: kernel
+    zero outside `smin..smax`, all differences strictly between `smax - L` and `smin + L` -/
+theorem C19_circular_eq_linear_of_support {K : Type} [CommSemiring K]
+    (kmin kmax : Int) (k : Int → K) (inMin inMax : Int) (x : Int → K) (outMin outMax i smin smax : Int)
+    (hf : realLenOkForward (kmax + 1 - kmin).toNat = true) (hinv : realLenOkInverse (kmax + 1 - kmin).toNat = true)
+    (hpos : kmin ≤ kmax) (hfit : inMax + 1 - inMin ≤ kmax + 1 - kmin) (hi : outMin ≤ i ∧ i ≤ outMax)
+    (hsupp : ∀ j, kmin ≤ j → j ≤ kmax → ¬ (smin ≤ j ∧ j ≤ smax) → k j = 0)
+    (hlo : smax - (kmax + 1 - kmin) < i - inMax) (hhi : i - inMin < smin + (kmax + 1 - kmin)) :
+    ∃ f, dftFilter1 kmin kmax k inMin inMax x outMin outMax = some f ∧
+      f i = ∑ j ∈ Icc kmin kmax, k j * ext inMin inMax x (i - j) :=
+  dftFilter1_eq_direct_of_support kmin kmax k inMin inMax x outMin outMax i smin smax hf hinv hpos hfit hi hsupp hlo hhi
+
+/-- "… whenever the padded length is at least twice the data length": kernel index range centred (`-(L/2) .. L/2-1`,
+    as the class documentation assumes), input and output inside a common range of `n` indices, `2n ≤ L`. -/
+theorem C19_dft_route_eq_direct_of_twice {K : Type} [CommSemiring K]
+    (kmin kmax : Int) (k : Int → K) (inMin inMax : Int) (x : Int → K) (outMin outMax i a n : Int)
+    (hf : realLenOkForward (kmax + 1 - kmin).toNat = true) (hinv : realLenOkInverse (kmax + 1 - kmin).toNat = true)
+    (hcentre : kmin = -((kmax + 1 - kmin) / 2)) (htwice : 2 * n ≤ kmax + 1 - kmin) (hn : 0 < n)
+    (hin : a ≤ inMin ∧ inMax < a + n) (hout : a ≤ outMin ∧ outMax < a + n) (hi : outMin ≤ i ∧ i ≤ outMax) :
+    ∃ f, dftFilter1 kmin kmax k inMin inMax x outMin outMax = some f ∧
+      f i = ∑ j ∈ Icc kmin kmax, k j * ext inMin inMax x (i - j) :=
+  dftFilter1_eq_direct_of_twice kmin kmax k inMin inMax x outMin outMax i a n hf hinv hcentre htwice hn hin hout hi
+
+/-- NEGATIVE WITNESS: "padded length ≥ 2 × data length" alone is not sufficient when the kernel's index range is not
+    centred: kernel `[1,1,1,1]` on `0..3`, data `[1,1]` on `0..1`; the padded-DFT route gives 2 at output index 0
+    (the coefficient at index 3 is reached by wrap-around from the difference -1), direct convolution gives 1. -/
+theorem C19_twice_alone_insufficient :
+    (dftFilter1 0 3 (fun _ => (1 : Int)) 0 1 (fun _ => 1) 0 1).map (fun f => f 0) = some 2 ∧
+      conv1dZeroAt 0 3 (fun _ => (1 : Int)) 0 1 (fun _ => 1) 0 = 1 := by decide
+
+/-- NEGATIVE WITNESS (replayed on the implementation: known-finding key
+    `real-inverse:last-dimension-of-length-2-rejected`): a last dimension of length 2 is accepted by the forward
+    real-data transform and rejected by the inverse one, so the padded-DFT filter with a kernel of length 2 is an error. -/
+theorem C19_real_inverse_length2_fails :
+    realLenOkForward 2 = true ∧ realLenOkInverse 2 = false ∧
+      (dftFilter1 0 1 (fun _ => (1 : Int)) 0 0 (fun _ => 1) 0 0).isNone = true := by decide
+
+/-! ### separable filters -/
+
+/-- "separable filters equal the successive one-dimensional filters in any axis order" (finite Fubini): for 1-D filters
+    that act linearly on lines (`IsKernelOp`), all six orders of applying them along the three axes give the same
+    array, namely `Σ A0·A1·A2·x`; `separable3` (the order used by `SeparableArrayFunctionObject`) is the first. -/
+theorem C19_separable_any_order {K : Type} [CommSemiring K] {f0 f1 f2 : Line1 K} {r0 r1 r2 : R} {A0 A1 A2 : Int → Int → K}
+    (h0 : IsKernelOp f0 r0.lo r0.hi A0) (h1 : IsKernelOp f1 r1.lo r1.hi A1) (h2 : IsKernelOp f2 r2.lo r2.hi A2)
+    (x : Int → Int → Int → K) (a b c : Int) (ha : r0.lo ≤ a ∧ a ≤ r0.hi) (hb : r1.lo ≤ b ∧ b ≤ r1.hi) (hc : r2.lo ≤ c ∧ c ≤ r2.hi) :
+    separable3 f0 f1 f2 r0 r1 r2 x a b c = sepClosed A0 A1 A2 r0 r1 r2 x a b c ∧
+    sepAxis1 f1 r1 (sepAxis2 f2 r2 (sepAxis0 f0 r0 x)) a b c = sepClosed A0 A1 A2 r0 r1 r2 x a b c ∧
+    sepAxis2 f2 r2 (sepAxis0 f0 r0 (sepAxis1 f1 r1 x)) a b c = sepClosed A0 A1 A2 r0 r1 r2 x a b c ∧
+    sepAxis0 f0 r0 (sepAxis2 f2 r2 (sepAxis1 f1 r1 x)) a b c = sepClosed A0 A1 A2 r0 r1 r2 x a b c ∧
+    sepAxis1 f1 r1 (sepAxis0 f0 r0 (sepAxis2 f2 r2 x)) a b c = sepClosed A0 A1 A2 r0 r1 r2 x a b c ∧
+    sepAxis0 f0 r0 (sepAxis1 f1 r1 (sepAxis2 f2 r2 x)) a b c = sepClosed A0 A1 A2 r0 r1 r2 x a b c :=
+  ⟨sep_012 h0 h1 h2 x a b c ha hb hc, sep_021 h0 h1 h2 x a b c ha hb hc, sep_102 h0 h1 h2 x a b c ha hb hc,
+   sep_120 h0 h1 h2 x a b c ha hb hc, sep_201 h0 h1 h2 x a b c ha hb hc, sep_210 h0 h1 h2 x a b c ha hb hc⟩
+
+/-- the three 1-D filter classes of the library satisfy the hypothesis of `C19_separable_any_order` -/
+theorem C19_filters_are_kernel_ops {K : Type} [CommSemiring K] (jmin jmax : Int) (k : Int → K) (lo hi : Int) :
+    IsKernelOp (fun lo hi x i => conv1dZeroAt jmin jmax k lo hi x i) lo hi (fun i m => ext jmin jmax k (i - m)) ∧
+    (lo ≤ hi → IsKernelOp (fun lo hi x i => conv1dConstAt jmin jmax k lo hi x i) lo hi
+      (fun i m => ∑ j ∈ Icc jmin jmax, if clamp lo hi (i - j) = m then k j else 0)) ∧
+    (0 ≤ jmax → IsKernelOp (fun lo hi x i => convSymAt jmax k lo hi x i) lo hi (fun i m => ext (-jmax) jmax (fun j => k |j|) (i - m))) :=
+  ⟨conv1dZero_isKernelOp jmin jmax k lo hi, conv1dConst_isKernelOp jmin jmax k lo hi, convSym_isKernelOp jmax k lo hi⟩
+
+/-! ### kernels summing to one preserve the mean -/
+
+/-- "filters whose kernel sums to one … preserve the mean of data that is constant over the kernel support": where the
+    data equal `c` on the kernel support around `i` (inside the input range), the output is `(Σ_j k_j)·c`, i.e. `c` for
+    a unit-sum kernel. -/
+theorem C19_unit_sum_preserves_mean {K : Type} [CommSemiring K]
+    (jmin jmax : Int) (k : Int → K) (inMin inMax : Int) (x : Int → K) (i : Int) (c : K)
+    (hc : ∀ j, jmin ≤ j → j ≤ jmax → (inMin ≤ i - j ∧ i - j ≤ inMax) ∧ x (i - j) = c) :
+    conv1dZeroAt jmin jmax k inMin inMax x i = (∑ j ∈ Icc jmin jmax, k j) * c ∧
+      (∑ j ∈ Icc jmin jmax, k j = 1 → conv1dZeroAt jmin jmax k inMin inMax x i = c) :=
+  ⟨conv1dZeroAt_const_on_support jmin jmax k inMin inMax x i c hc,
+   fun hs => conv1dZeroAt_unit_sum jmin jmax k inMin inMax x i c hs hc⟩
+
+/-! ### Fourier transforms -/
+
+/-- `bitreversal` (the `j`-counter loop) applied to an array of length `2^b` moves `data[rev p]` to position `p`, for
+    every `b` — it is the bit-reversal permutation … -/
+theorem C19_bitReversal_perm {K : Type} (b : Nat) (a : Array K) (ha : a.size = 2 ^ b) (p : Nat) (hp : p < 2 ^ b) :
+    (bitReversal a).size = 2 ^ b ∧ (bitReversal a)[p]? = a[rev b p]? ∧ rev b p < 2 ^ b :=
+  ⟨(bitReversal_getElem? b a ha p hp).1, (bitReversal_getElem? b a ha p hp).2, rev_lt b p⟩
+
+/-- … which is an involution: applying `bitreversal` twice restores the array -/
+theorem C19_bitReversal_involutive {K : Type} (b : Nat) (a : Array K) (ha : a.size = 2 ^ b) (p : Nat) (hp : p < 2 ^ b) :
+    rev b (rev b p) = p ∧ (bitReversal (bitReversal a))[p]? = a[p]? := by
+  refine ⟨rev_rev b p hp, ?_⟩
+  have h1 := bitReversal_getElem? b (bitReversal a) (bitReversal_getElem? b a ha p hp).1 p hp
+  have h2 := bitReversal_getElem? b a ha (rev b p) (rev_lt b p)
+  rw [h1.2, h2.2, rev_rev b p hp]
+
+/-- "the real-data and complex-data transforms agree" — index part: `pos_frequencies_to_all` (1-D) rebuilds every
+    Hermitian-symmetric spectrum `F` (`F_{2n-i} = conj F_i`) from its non-negative frequencies `0..n`. -/
+theorem C19_posFreqToAll_hermitian {K : Type} [Inhabited K] (conj : K → K) (n : Nat) (hn : 0 < n) (c : Array K)
+    (hc : c.size = n + 1) (F : Nat → K) (hF : ∀ i, i ≤ n → c[i]? = some (F i))
+    (hherm : ∀ i, 0 < i → i ≤ n → F (2 * n - i) = conj (F i)) :
+    (posFreqToAll1 conj c).size = 2 * n ∧ ∀ p, p < 2 * n → (posFreqToAll1 conj c)[p]? = some (F p) :=
+  posFreqToAll1_hermitian conj n hn c hc F hF hherm
+
+/-- "the inverse discrete Fourier transform of the forward transform returns the input" — at the level of the
+    definition `r_k = Σ_j c_j ω^{jk}` (fourier.h), for every length `n` and every primitive `n`-th root of unity in an
+    integral domain: transforming with `ω⁻¹` after `ω` gives `n·x` (`inverse_fourier` divides by `n`). -/
+theorem C19_dft_inverse {K : Type} [CommRing K] [IsDomain K] (ω ωi : K) (n : Nat) (hω : IsPrimitiveRoot ω n) (hinv : ω * ωi = 1)
+    (x : Nat → K) (j : Nat) (hj : j < n) :
+    dftSpec1 (fun m => ωi ^ m) n (fun k => dftSpec1 (fun m => ω ^ m) n x k) j = (n : K) * x j :=
+  dft_inverse ω ωi n hω hinv x j hj
+
+/-- "Parseval's identity holds": `Σ_k |X_k|² = n Σ_j |x_j|²` over ℂ, any length, any primitive root (`e^{±2πi/n}`) -/
+theorem C19_dft_parseval (ω : ℂ) (n : Nat) (hω : IsPrimitiveRoot ω n) (hn : n ≠ 0) (x : Nat → ℂ) :
+    ∑ k ∈ range n, ‖dftSpec1 (fun m => ω ^ m) n x k‖ ^ 2 = (n : ℝ) * ∑ j ∈ range n, ‖x j‖ ^ 2 :=
+  dft_parseval ω n hω hn x
+
+/-- Plancherel in bilinear form over any integral domain -/
+theorem C19_dft_plancherel {K : Type} [CommRing K] [IsDomain K] (ω ωi : K) (n : Nat) (hω : IsPrimitiveRoot ω n) (hinv : ω * ωi = 1)
+    (x y : Nat → K) :
+    ∑ k ∈ range n, dftSpec1 (fun m => ω ^ m) n x k * dftSpec1 (fun m => ωi ^ m) n y k = (n : K) * ∑ j ∈ range n, x j * y j :=
+  dft_plancherel ω ωi n hω hinv x y
+
+/-- "the transform of a unit impulse is constant": an impulse at `p` transforms to the phase ramp `ω^{pk}` (modulus 1),
+    an impulse at the origin to the constant 1 -/
+theorem C19_dft_impulse_const {K : Type} [CommRing K] (w : K) (n : Nat) (hw : w ^ n = 1) (p : Nat) (hp : p < n) (k : Nat) :
+    dftSpec1 (fun m => w ^ m) n (fun j => if j = p then 1 else 0) k = w ^ (p * k) ∧
+      dftSpec1 (fun m => w ^ m) n (fun j => if j = 0 then 1 else 0) k = 1 :=
+  ⟨dft_impulse w n hw p hp k, dft_impulse_origin w n hw (by omega) k⟩
+
+/-- **fft_eq_dft**: the iterative radix-2 butterfly loop of `fourier_1d` (bit reversal, then for every `k` the two inner
+    loops with the table `exparray[i] = ω^{i·N/(2·2^k)}`) computes the DFT of the definition, `r_k = Σ_j c_j ω^{jk}`, for
+    EVERY `nn` (length `N = 2^nn`) and every primitive `N`-th root of unity `ω` of an integral domain. -/
+theorem C19_fft_eq_dft {K : Type} [CommRing K] [IsDomain K] [Inhabited K] (nn : Nat) (ω : K) (hω : IsPrimitiveRoot ω (2 ^ nn))
+    (c : Array K) (hc : c.size = 2 ^ nn) :
+    ∃ r, fourier1d (twiddle nn ω) c = some r ∧ r.size = 2 ^ nn ∧
+      ∀ k, k < 2 ^ nn → r[k]? = some (dftSpec1 (fun m => ω ^ m) (2 ^ nn) (fun j => c[j]!) k) :=
+  fourier1d_eq_dft nn ω hω c hc
+
+/-- "the inverse discrete Fourier transform of the forward transform returns the input" — for the MODEL of the code:
+    `fourier_1d` with the tables of `ω`, followed by `inverse_fourier` (`fourier_1d` with the tables of `ω⁻¹`, i.e. `-sign`,
+    then division by the number of points), returns the input array, for every power-of-two length, over any field. -/
+theorem C19_inverse_fourier_inverts {K : Type} [Field K] [Inhabited K] (nn : Nat) (ω ωi : K) (hω : IsPrimitiveRoot ω (2 ^ nn))
+    (hinv : ω * ωi = 1) (c : Array K) (hc : c.size = 2 ^ nn) :
+    ∃ r, fourier1d (twiddle nn ω) c = some r ∧
+      ∃ r', inverseFourierND (twiddle nn ωi) [2 ^ nn] r = some r' ∧ r'.size = 2 ^ nn ∧ ∀ k, k < 2 ^ nn → r'[k]? = c[k]? :=
+  inverse_fourier1d_inverts nn ω ωi hω hinv c hc
+
+/-- NOT PROVED (correspondence-only), stated for the record: the product of the real-data DFTs of padded data and wrapped
+    kernel, transformed back, is their circular convolution `circConv1At` (convolution theorem); the real-data transforms
+    `fourierRealData1` / `invFourierRealData1` (packing trick) agree with the complex ones; the n-dimensional transforms
+    are the iterated 1-D ones.  These links are exercised by the correspondence run within the rounding bounds. -/
+def C19_convolution_theorem_statement : Prop :=
+  ∀ (L : Nat) (ω : ℂ), IsPrimitiveRoot ω L → ∀ (kp xp : Array ℂ), kp.size = L → xp.size = L → ∀ p, p < L →
+    dftSpec1 (fun m => ω⁻¹ ^ m) L (fun q => dftSpec1 (fun m => ω ^ m) L (fun j => kp.getD j 0) q *
+      dftSpec1 (fun m => ω ^ m) L (fun j => xp.getD j 0) q) p = (L : ℂ) * circConv1At L kp xp p
+
+/-! ### non-vacuity: the hypotheses are satisfiable by concrete, non-trivial instances -/
+
+/-- a centred kernel of length 8 (`-4..3`), data and output on `2..5` (4 ≤ 8/2 indices) -/
+example : ∃ f, dftFilter1 (-4) 3 (fun j => j + 5) 2 5 (fun m => m * m) 2 5 = some f ∧
+    f 3 = ∑ j ∈ Icc (-4 : Int) 3, (j + 5) * ext 2 5 (fun m => m * m) (3 - j) :=
+  C19_dft_route_eq_direct_of_twice (-4) 3 _ 2 5 _ 2 5 3 2 4 (by decide) (by decide) (by decide) (by decide) (by decide)
+    (by decide) (by decide) (by decide)
+
+/-- a kernel on `0..7` supported on `0..2` only: differences up to `-5` cannot reach the support by wrap-around -/
+example : ∃ f, dftFilter1 0 7 (fun j => if j ≤ 2 then j + 1 else 0) 0 3 (fun m => m + 7) 0 5 = some f ∧
+    f 1 = ∑ j ∈ Icc (0 : Int) 7, (if j ≤ 2 then j + 1 else 0) * ext 0 3 (fun m => m + 7) (1 - j) :=
+  C19_circular_eq_linear_of_support 0 7 _ 0 3 _ 0 5 1 0 2 (by decide) (by decide) (by decide) (by decide) (by decide)
+    (by intro j h1 h2 h3; rw [if_neg (by omega)]) (by decide) (by decide)
+
+/-- `-1` is a primitive 2nd root of unity in `ℤ`: the DFT theorems are not vacuous -/
+example : IsPrimitiveRoot (-1 : ℤ) 2 ∧ (-1 : ℤ) * (-1) = 1 :=
+  ⟨IsPrimitiveRoot.mk_of_lt (-1) (by decide) (by decide) (by intro l h1 h2; interval_cases l; decide), by decide⟩
+
+/-- … and the butterfly theorem applies to it: the 2-point transform of `[3, 5]` with `ω = -1` is `[8, -2]` -/
+example : ∃ r, fourier1d (twiddle 1 (-1 : ℤ)) #[3, 5] = some r ∧ r.size = 2 ^ 1 ∧
+    ∀ k, k < 2 ^ 1 → r[k]? = some (dftSpec1 (fun m => (-1 : ℤ) ^ m) (2 ^ 1) (fun j => (#[3, 5] : Array ℤ)[j]!) k) :=
+  C19_fft_eq_dft 1 (-1 : ℤ)
+    (IsPrimitiveRoot.mk_of_lt (-1) (by decide) (by decide) (by intro l h1 h2; interval_cases l; decide)) #[3, 5] rfl
+example : dftSpec1 (fun m => (-1 : ℤ) ^ m) 2 (fun j => (#[3, 5] : Array ℤ)[j]!) 0 = 8 ∧
+    dftSpec1 (fun m => (-1 : ℤ) ^ m) 2 (fun j => (#[3, 5] : Array ℤ)[j]!) 1 = -2 := by decide
+
+/-- every power-of-two length has a primitive root over ℂ (`e^{2πi/N}`): the theorems cover the lengths 2 … 1024 and beyond -/
+example (nn : Nat) : IsPrimitiveRoot (Complex.exp (2 * Real.pi * Complex.I / ((2 ^ nn : Nat) : ℂ))) (2 ^ nn) :=
+  Complex.isPrimitiveRoot_exp (2 ^ nn) (by positivity)
+
+/-- data constant (= 7) on the kernel support `3-1 .. 3+1` -/
+example : conv1dZeroAt (-1) 1 (fun j => if j = 0 then (2 : Int) else -1 + 1) 0 9 (fun m => if 2 ≤ m ∧ m ≤ 4 then 7 else m) 3 =
+    (∑ j ∈ Icc (-1 : Int) 1, (if j = 0 then (2 : Int) else -1 + 1)) * 7 :=
+  (C19_unit_sum_preserves_mean (-1) 1 _ 0 9 _ 3 7 (by intro j h1 h2; constructor; omega; rw [if_pos (by omega)])).1
+
+/-- the bit reversal on 3 bits is the familiar `0 4 2 6 1 5 3 7`; position 1 of a reversed 4-array holds element 2 -/
+example : (List.range 8).map (rev 3) = [0, 4, 2, 6, 1, 5, 3, 7] := by decide
+example : (bitReversal #[10, 11, 12, 13])[1]? = some 12 := by
+  have h := (C19_bitReversal_perm 2 #[10, 11, 12, 13] rfl 1 (by decide)).2.1
+  rw [h]; rfl
+
+/-- the zero-boundary filter with kernel `[1, 2]` on `0..1` is a kernel operator on the line `0..3` -/
+example : IsKernelOp (fun lo hi x i => conv1dZeroAt 0 1 (fun j => j + 1) lo hi x i) 0 3 (fun i m => ext 0 1 (fun j => j + 1) (i - m)) :=
+  (C19_filters_are_kernel_ops 0 1 (fun j : Int => j + 1) 0 3).1
 
 end StirVerif.C19
